@@ -25,6 +25,16 @@ def store(cfg, names=None):
   cfg.c = names
 
 
+def base_dups(v=0):
+  """Different callables whose names snake-case to one string (same leaf name in two modules,
+  class Linear next to function linear, same-named classmethods)."""
+  from vt import dup1, dup2
+  LOG.append(('base_dups', v))
+  return fdl.Config(kinds.node, a=fdl.Config(dup1.same, x=v), b=fdl.Config(dup2.same, x=[v, 1]),
+                    c=[fdl.Config(kinds.Linear, x=1), fdl.Config(kinds.linear, x=2),
+                       fdl.Config(dup1.Thing), fdl.Config(dup2.Thing)])
+
+
 def base2():
   LOG.append(('base2',))
   return fdl.Config(kinds.three, a=fdl.Config(kinds.two, x=0), b=[0, 0], c=None)
